@@ -8,7 +8,7 @@ from . import _sched as S
 from .C02 import WITNESSES
 
 PROP = "C03"
-GEN_REGIONS: List[str] = ["Sched", "Utils", "SchedGlue", "ConfigGlue"]
+GEN_REGIONS: List[str] = ["Sched", "Utils", "SchedGlue", "ConfigGlue", "GlobalState"]
 THEOREMS = {
     "SpecKitV.Lemmas.SchedLtf": ["ltfStep_rL", "ltfStep_bin", "ltfStep_bmin_slack", "walk_first", "walk_below", "walk_stepping",
                                  "ltf_walk_ge_fmin", "ltf_walk_nonempty"],
@@ -22,6 +22,9 @@ THEOREMS = {
     "SpecKitV.Props.SchedGlueGen": ["SchedGlue.gen_require_args_eq", "SchedGlue.gen_ltf_post_eq", "SchedGlue.gen_vec_post_glue_eq", "SchedGlue.gen_new_post_glue_eq", "SchedGlue.gen_ltf_plan_eq_model", "SchedGlue.gen_vec_plan_eq_model", "SchedGlue.gen_new_plan_eq_model", "SchedGlue.gen_lpsd_forward", "SchedGlue.gen_lpsd_plan_eq_ltf", "SchedGlue.gen_lpsd_plan_eq_model", "SchedGlue.gen_plan_missing_key", "SchedGlue.gen_lpsd_missing_key", "SchedGlue.planDict_keys", "SchedGlue.gen_plan_wiring", "SchedGlue.planDict_overlap", "SchedGlue.gen_ltf_plan_props", "SchedGlue.gen_lpsd_plan_props", "SchedGlue.gen_new_plan_props", "SchedGlue.gen_vec_plan_props", "SchedGlue.gen_plan_overlap_key"],
     "SpecKitV.Props.ConfigGlueGen": ["ConfigGlue.gen_window_eq_spec", "ConfigGlue.gen_window_explicit_olap", "ConfigGlue.gen_window_explicit_olap_ok",
                                      "ConfigGlue.gen_sched_eq_spec", "ConfigGlue.gen_sched_new_ltf", "ConfigGlue.gen_sched_callable", "ConfigGlue.gen_cg_plan_eq_model"],
+    # no state outlives a call in the files this property is anchored in (no module/class-level containers, memoisers, mutable defaults) and the
+    # decorators are exactly the audited ones (region GlobalState, re-scanned from the current source each run)
+    "SpecKitV.Props.GlobalStateGen": ["GlobalStateGen.gen_globalState_schedulers", "GlobalStateGen.gen_globalState_utils"],
 }
 CONTRACTS = ["np.logspace/np.searchsorted as modelled (10**linspace; count of grid points below the query)",
              'Python dict with string keys = association list, most recent binding first (Py.Dict in Np/SchedGlue.lean): d[k]=v (last write wins), d[k], k in d, dict(d) copies, d.update(e), dict(k=v,...)',
